@@ -74,7 +74,7 @@ func (j *judge) order() {
 		if j.in.Strict && v.overflowCtx {
 			continue
 		}
-		seq, _, _ := expected(j.in.Body, j.in.Roots, v)
+		seq, _, _, olCtx := expectedFull(j.in.Body, j.in.Roots, v)
 		pos := map[Key]int{}
 		for i, k := range seq {
 			if _, dup := pos[k]; dup {
@@ -90,6 +90,10 @@ func (j *judge) order() {
 			pa, oka := pos[p.a]
 			pb, okb := pos[p.b]
 			if !oka || !okb {
+				continue
+			}
+			// step 10 paints "outlines from this stacking context" without ordering them
+			if p.a.Layer == LOutline && p.b.Layer == LOutline && olCtx[p.a.ID] == olCtx[p.b.ID] {
 				continue
 			}
 			a, b := p.a, p.b
@@ -154,6 +158,7 @@ func (j *judge) order() {
 	}
 	// report-only: discordant pairs that do not overlap (commuting paints)
 	seq := bestSeq
+	_, _, _, olBest := expectedFull(j.in.Body, j.in.Roots, variants[bestV])
 	pos := map[Key]int{}
 	for i, k := range seq {
 		pos[k] = i
@@ -167,6 +172,9 @@ func (j *judge) order() {
 			}
 			if pos[b] < pos[a] {
 				a, b = b, a
+			}
+			if a.Layer == LOutline && b.Layer == LOutline && olBest[a.ID] == olBest[b.ID] {
+				continue // step 10 does not order the outlines of one context
 			}
 			if !(last[a] < first[b]) {
 				disc++
